@@ -363,6 +363,78 @@ func init() {
 	})
 
 	register(&Rule{
+		ID: "cb.reset-clears-what-trip-reads", Props: []string{"C03"}, Floor: 3,
+		Doc: "for each breaker type, the statistic reset performed when a probe closes the breaker clears every counter that the trip decision of the same type's OnRequestComplete sums over: both range over the slice returned by the same collector method of the breaker's statistic (allCounter). Clearing a subset (e.g. the current bucket) leaves the samples that tripped the breaker in a multi-bucket window and the next completion re-opens it",
+		Run: func(c *Ctx) {
+			toClosed := c.P.Func(cbPkg + ".(*circuitBreakerBase).fromHalfOpenToClosed")
+			if toClosed == nil {
+				c.AnchorLost("fromHalfOpenToClosed")
+				return
+			}
+			// collector methods: calls whose receiver path ends in ".stat" and whose result is a slice
+			collectors := func(f *ssa.Function) map[string]bool {
+				out := map[string]bool{}
+				for _, ci := range callsIn(f) {
+					cal := ci.Common().StaticCallee()
+					if cal == nil || cal.Signature.Recv() == nil || len(ci.Common().Args) == 0 {
+						continue
+					}
+					if !strings.HasSuffix(accessPath(ci.Common().Args[0]), ".stat") {
+						continue
+					}
+					if v := ci.Value(); v != nil {
+						if _, ok := v.Type().Underlying().(*types.Slice); ok {
+							out[cal.Name()] = true
+						}
+					}
+				}
+				return out
+			}
+			for _, ci := range c.P.StaticCallers(toClosed) {
+				f := ci.Parent()
+				var rm *ssa.Function
+				blk := ci.Block()
+				for _, x := range blk.Instrs[instrIndex(ci.(ssa.Instruction))+1:] {
+					if c2, ok := x.(ssa.CallInstruction); ok {
+						if cal := c2.Common().StaticCallee(); cal != nil && coneStoresZeroAtomic(cal, 3) {
+							rm = cal
+						}
+					}
+				}
+				key := fnKey(f) + " / reset-covers-trip-window"
+				if rm == nil {
+					c.Violate(key, ci.Pos(), "no statistic reset follows the transition to Closed")
+					continue
+				}
+				read := collectors(f)
+				if len(read) == 0 {
+					c.Undecided(key, f.Pos(), "cannot find the collector the trip decision ranges over")
+					continue
+				}
+				n, bad := 0, ""
+				for _, rc := range callsIn(rm) {
+					cal := rc.Common().StaticCallee()
+					if cal == nil || !coneStoresZeroAtomic(cal, 2) || len(rc.Common().Args) == 0 {
+						continue
+					}
+					n++
+					p := accessPath(rc.Common().Args[0])
+					ok := false
+					for m := range read {
+						if strings.Contains(p, ".stat."+m+"()") && strings.Contains(p, "[") {
+							ok = true
+						}
+					}
+					if !ok {
+						bad = p
+					}
+				}
+				c.Check(n > 0 && bad == "", key, rm.Pos(), "%s resets the elements of the collection the trip decision sums over (%s); offending receiver: %q", rm.Name(), strings.Join(boolKeys(read), ","), bad)
+			}
+		},
+	})
+
+	register(&Rule{
 		ID: "cb.sibling-trypass", Props: []string{"C03", "C12"}, Floor: 3,
 		Doc: "every TryPass of a CircuitBreaker in core/circuitbreaker returns true only under (state==Closed) or (state==Open and retryTimeoutArrived and the Open->HalfOpen CAS was won) or (state==HalfOpen and probeNumber>0); all siblings admit under the same set of conditions",
 		Run: func(c *Ctx) {
@@ -384,12 +456,35 @@ func init() {
 				}
 				var cats []string
 				bad := false
-				for _, r := range returnsOf(f) {
+				// a TryPass that only forwards to a helper of the package (return b.tryPass(ctx)) is judged by the helper
+				body := f
+				for d := 0; d < 2; d++ {
+					rs := returnsOf(body)
+					if len(rs) != 1 || len(condFacts(rs[0].Block())) != 0 {
+						break
+					}
+					call, ok := rs[0].Results[0].(*ssa.Call)
+					if !ok {
+						break
+					}
+					g := call.Call.StaticCallee()
+					if g == nil || relPkg(fnPkgPath(g)) != cbPkg || g == toHalf || g == arrived || g.Blocks == nil {
+						break
+					}
+					body = g
+				}
+				for _, r := range returnsOf(body) {
 					for _, path := range returnValueCases(r, 0) {
 						if v, ok := path.val.(*ssa.Const); ok && v.Value != nil && v.Value.Kind() == constant.Bool {
 							if !constant.BoolVal(v.Value) {
 								continue
 							}
+						} else if call, ok := path.val.(*ssa.Call); ok && (isStaticCallTo(call, toHalf) || isStaticCallTo(call, arrived)) {
+							// `return cond && b.fromOpenToHalfOpen(ctx)`: admitted iff the call answers true
+							path.extra = append(path.extra, Fact{Cond: call, Truth: true})
+						} else if bo, ok := path.val.(*ssa.BinOp); ok && isComparison(bo.Op) {
+							// `return b.probeNumber > 0`: admitted iff the comparison holds
+							path.extra = append(path.extra, Fact{Cond: bo, Truth: true})
 						} else {
 							// non-constant result: must itself be one of the admitted predicates; not used today
 							c.Undecided(fnKey(f)+" / return", r.Pos(), "TryPass returns a non-constant value %s; admitted shapes are constant returns under branch conditions", accessPath(path.val))
@@ -470,6 +565,62 @@ func init() {
 				if shapes[i] != shapes[0] {
 					c.Violate("core/circuitbreaker / TryPass siblings", impls[i].Pos(), "sibling TryPass implementations admit under different condition sets: %q vs %q", shapes[0], shapes[i])
 				}
+			}
+		},
+	})
+
+	register(&Rule{
+		ID: "cb.state-read-before-deadline", Props: []string{"C12"}, Floor: 3,
+		Doc: "the writers store the retry deadline before they publish Open (cb.deadline-before-open); this protects a reader only if it reads in the opposite order. In every TryPass (or the helper it forwards to) the state word is read before the retry deadline: the call of retryTimeoutArrived / the load of nextRetryTimestampMs is dominated by the read of the state. A reader that loads the deadline first can pair a stale deadline with a freshly published Open and admit a probe at once",
+		Run: func(c *Ctx) {
+			ifn := c.P.Named(cbPkg + ".CircuitBreaker")
+			cur := c.P.Func(cbPkg + ".(*circuitBreakerBase).CurrentState")
+			get := c.P.Func(cbPkg + ".(*State).get")
+			arrived := c.P.Func(cbPkg + ".(*circuitBreakerBase).retryTimeoutArrived")
+			if ifn == nil || cur == nil || get == nil || arrived == nil {
+				c.AnchorLost("CircuitBreaker / CurrentState / State.get / retryTimeoutArrived")
+				return
+			}
+			for _, f := range c.P.Implementations(ifn.Underlying().(*types.Interface), "TryPass") {
+				if relPkg(fnPkgPath(f)) != cbPkg {
+					continue
+				}
+				// the functions of the package that TryPass runs (depth 2), excluding the leaf readers themselves
+				var bodies []*ssa.Function
+				seen := map[*ssa.Function]bool{}
+				var walk func(g *ssa.Function, d int)
+				walk = func(g *ssa.Function, d int) {
+					if g == nil || seen[g] || d > 2 || relPkg(fnPkgPath(g)) != cbPkg || g == cur || g == get || g == arrived || g.Blocks == nil {
+						return
+					}
+					seen[g] = true
+					bodies = append(bodies, g)
+					for _, ci := range callsIn(g) {
+						walk(ci.Common().StaticCallee(), d+1)
+					}
+				}
+				walk(f, 0)
+				nD, bad := 0, ""
+				for _, g := range bodies {
+					isState := func(x ssa.Instruction) bool {
+						ci, ok := x.(ssa.CallInstruction)
+						return ok && (isStaticCallTo(ci, cur) || isStaticCallTo(ci, get))
+					}
+					for _, ci := range callsIn(g) {
+						isDeadline := isStaticCallTo(ci, arrived)
+						if !isDeadline && isExtCall(ci, "sync/atomic.LoadUint64") && strings.HasSuffix(accessPath(ci.Common().Args[0]), ".nextRetryTimestampMs") {
+							isDeadline = true
+						}
+						if !isDeadline {
+							continue
+						}
+						nD++
+						if !mustBeforeInstr(ci.(ssa.Instruction), isState, nil) {
+							bad = c.P.Pos(ci.Pos()) + " in " + fnKey(g)
+						}
+					}
+				}
+				c.Check(nD > 0 && bad == "", fnKey(f)+" / state-then-deadline", f.Pos(), "%d read(s) of the retry deadline, each after the state word was read in the same function (offending: %q)", nD, bad)
 			}
 		},
 	})
@@ -744,4 +895,13 @@ func init() {
 			}
 		},
 	})
+}
+
+func boolKeys(m map[string]bool) []string {
+	var out []string
+	for k := range m {
+		out = append(out, k)
+	}
+	sortStrings(out)
+	return out
 }
